@@ -128,7 +128,8 @@ def tracked_specs(ref):
     P = tree.entity_path(ref, pr, L)[0]
     d = ref.forced(L, leaf)
     specs = {"plain": ("str", L), "untyped": ("str", "bla/bla"), "path-born": ("path", P), "fields-born": ("fields", dict(d)),
-             "query-born": ("query", "&".join(f"{k}={v}" for k, v in list(d.items())[:4])), "short": ("str", "/".join(L.split("/")[:3]))}
+             "query-born": ("query", "&".join(f"{k}={v}" for k, v in list(d.items())[:4])), "short": ("str", "/".join(L.split("/")[:3])),
+             "empty": ("str", "")}
     for i, t in enumerate(forced[:3]):
         specs[f"forced{i}"] = ("str", t + ":" + S)
     return specs, L, S
@@ -223,6 +224,18 @@ def operations(ref, L, S):
     reg("set-and-dict-of-tracked", lambda c: (set(c["T"].values()), {x: 1 for x in c["T"].values()}))
     reg("sorted(tracked)", lambda c: sorted(c["T"].values()))
     reg("eval(repr)", lambda c: [eval(repr(x), {"Sid": Sid}) for x in c["T"].values()])
+
+    # value copies through the standard protocols (copy / deepcopy / pickle): each is a Sid derived from a tracked one; it is
+    # kept, must equal its origin, and - like every existing Sid - must stay what it is while further copies are made
+    def value_copies(c, how):
+        import copy, pickle
+        f = {"copy": copy.copy, "deepcopy": copy.deepcopy, "pickle": lambda x: pickle.loads(pickle.dumps(x))}[how]
+        for k, x in c["T"].items():
+            y = f(x)
+            c.setdefault("derived", []).append((f"{how}({k})", y, snap({k: x})[k]))
+    for how in ("copy", "deepcopy", "pickle"):
+        reg(f"value-{how}(tracked)", lambda c, how=how: value_copies(c, how))
+    reg("value-deepcopy-fields-mutate", lambda c: [mutate_dict(__import__("copy").deepcopy(x).fields) for x in c["T"].values()], True)
     return ops
 
 
@@ -247,6 +260,13 @@ def run_history(ref, specs, ops, hist, warm):
             ops[name][0](ctx)
         except Exception as e:  # noqa
             out.append(dict(signature=f"operation-raises/{type(e).__name__}/{name}", observed=repr(e)[:100], expected="no exception"))
+            break
+        for label, y, want in ctx.get("derived", []):
+            got = snap({"d": y})["d"]
+            if got != want:
+                out.append(dict(signature="derived-sid-differs-from-its-origin-or-changed/" + label.split("(")[0], observed=[name, label, got[:4]], expected=want[:4]))
+                break
+        if out:
             break
         now = snap(T)
         if now != before:
